@@ -33,6 +33,8 @@ pub fn check(tier: Tier) -> Check {
     // identifier flavour: the counters start next to a boundary of their encodings (DESIGN 4)
     parts.push(Part::new("C14/drop", json!({"depth": tier.pick(4, 5), "r": 0, "ids": [65534, 127]}), 1, tier.pick(40, 600)));
     parts.push(Part::new("C14/streams", json!({"depth": tier.pick(5, 6)}), tier.pick(1, 2), tier.pick(40, 400)));
+    // a long backlog (127 .. 1025 unread messages) in a stream that is only read after the drop
+    parts.push(Part::new("C14/backlog", json!({}), 0, 60));
     Check {
         also_rel: false,
         property: "C14",
@@ -86,7 +88,45 @@ fn streams(name: String, params: Value) -> Scenario {
     })
 }
 
+fn backlog(name: String, params: Value) -> Scenario {
+    Box::new(move |chz, ex| {
+        let n = [127usize, 128, 129, 300, 1025][chz.choose(5)];
+        let taken_late = chz.choose(2) == 1;
+        let mut sys = Sys::new("C14", &name, chz);
+        sys.params = params.clone();
+        sys.m.check_client_acks = false;
+        sys.bring_up(vec![]);
+        sys.apply(Ev::Start(OpSpec::Subscribe(SubscribeSpec::simple("s/backlog"))));
+        if sys.dead {
+            return sys.report(ex, &[]);
+        }
+        let ack = sys.ack_for(0, 0, "").unwrap();
+        sys.apply(Ev::Deliver(ack));
+        if !taken_late {
+            sys.apply(Ev::TakeStream(0));
+            sys.apply(Ev::Hold(crate::world::Tid::Stream(0)));
+        }
+        let id = sys.m.subs[0].sub_id.unwrap();
+        for i in 0..n {
+            sys.apply(Ev::Deliver(inbound(0, false, 0, &[id], &format!("b{}", i))));
+            if sys.dead {
+                return sys.report(ex, &[]);
+            }
+        }
+        sys.apply(Ev::DropCtx);
+        if taken_late {
+            sys.apply(Ev::TakeStream(0));
+        }
+        sys.finish();
+        sys.events = vec![format!("{} messages unread in a stream ({}), Context dropped, stream read", n, if taken_late { "stream() called after the drop" } else { "stream held back" })];
+        sys.report(ex, &["stream-end"]);
+    })
+}
+
 pub fn scenario(name: &str, params: &Value) -> Scenario {
+    if name == "C14/backlog" {
+        return backlog(name.to_string(), params.clone());
+    }
     if name == "C14/streams" {
         return streams(name.to_string(), params.clone());
     }
